@@ -26,19 +26,27 @@ var bufferPool = sync.Pool{
 
 // currentTag returns the current tag in tagBuffer
 func (b *buffer) currentTag() Tag {
-	return b.tag[b.pos]
+	if b.pos < b.len && b.pos < tagMaxCount {
+		return b.tag[b.pos]
+	}
+	return Tag{}
 }
 
 // nextTag returns the next tag in tagBuffer
 func (b *buffer) nextTag() Tag {
-	return b.tag[b.pos+1]
+	if next := b.pos + 1; next < b.len && next < tagMaxCount {
+		return b.tag[next]
+	}
+	return Tag{}
 }
 
 // nextTag increments the position by 1
 func (b *buffer) advanceBuffer() Tag {
 	if b.pos < b.len {
 		b.pos++
-		return b.tag[b.pos]
+		if b.pos < b.len && b.pos < tagMaxCount {
+			return b.tag[b.pos]
+		}
 	}
 	return Tag{}
 }
@@ -68,7 +76,7 @@ func (ir *ifdReader) seekToTag(t Tag) (err error) {
 
 // resetPosition resets the tag buffer to only include unread tags
 func (b *buffer) resetPosition() {
-	if b.pos > 0 {
+	if b.pos > 0 && b.pos <= b.len && b.len <= tagMaxCount {
 		copy(b.tag[:b.len-b.pos], b.tag[b.pos:b.len])
 		b.len -= b.pos
 		b.pos = 0
